@@ -41,6 +41,7 @@ type conf struct {
 	// every later request at once; each caller issues a second call `gap` ms after its first one returned
 	lateBy int
 	gap    int
+	push   bool // the proxies have a push callback (SetPushCallback): the adapter starts its keep-alive on the first call
 	oneway bool // one-way calls: nothing is awaited, but whatever the outcome nothing may be left behind either
 }
 
@@ -77,6 +78,17 @@ func scenario(c conf) *vm.Scenario {
 			sps[i] = sp
 			if c.ownProxies && i > 0 {
 				sps[i] = tars.NewServantProxy(comm, obj)
+			}
+		}
+		for k, p := range sps {
+			if k > 0 && !c.ownProxies {
+				break
+			}
+			if c.push {
+				p.SetPushCallback(func(b []byte) { vm.Log("push %d bytes", len(b)) })
+			}
+			if c.src == "tarsset" {
+				p.TarsSetTimeout(c.timeout)
 			}
 		}
 		done := make(chan struct{}, c.callers)
@@ -440,6 +452,18 @@ func main() {
 	// all callers at the same instant, every schedule with one deviation (two callers between "is there room" and "put it in")
 	add(conf{name: "same-instant", peer: "blocked-writer", src: "config", callers: 4, timeout: 400, dialMs: 300, writeMs: 1000, queue: 1}, 1, false)
 	add(conf{name: "same-instant", peer: "blocked-writer", src: "config", callers: 5, timeout: 400, dialMs: 300, writeMs: 1000, queue: 2}, 1, false)
+	// a timeout of 0 (per call, or TarsSetTimeout(0)) is a deadline that has already passed, not "no deadline"
+	for _, p := range []string{"silent", "late", "close-after-request"} {
+		for _, s := range []string{"percall", "tarsset"} {
+			add(conf{name: "zero-timeout", peer: p, src: s, callers: 1, timeout: 0, dialMs: 300, writeMs: 1000}, 1, false)
+		}
+		add(conf{name: "zero-timeout", peer: p, src: "tarsset", callers: 2, timeout: 0, dialMs: 300, writeMs: 1000, stagger: 10}, 0, false)
+	}
+	// proxies with a push callback: the keep-alive the first call starts must not hold any call up
+	for _, p := range []string{"ok", "silent", "late", "close-after-request"} {
+		add(conf{name: "push-callback", peer: p, src: "config", callers: 2, timeout: 400, dialMs: 300, writeMs: 1000, push: true, stagger: 20}, 1, false)
+		add(conf{name: "push-callback", peer: p, src: "ctx", callers: 2, timeout: 400, dialMs: 300, writeMs: 1000, push: true, ownProxies: true}, 0, false)
+	}
 	e1.Main(run, cases, []string{
 		"deadlines are judged on the virtual clock: a call must return within effective deadline (+ dial timeout when the dial itself hangs) + one time-wheel tick of the enqueue timeout",
 		"quiescence = 3 s of virtual time after the last caller returned",
